@@ -38,6 +38,8 @@ func collect() {
 	methodSource("p/p2pmux", "muxedSwarm", "MTU", "src_mux_mtu")
 	methodSource("s/p2pkeswarm", "Swarm", "MTU", "src_ke_mtu")
 	methodSource("s/multiswarm", "multiSwarm", "MTU", "src_multi_mtu")
+	methodSource("s/multiswarm", "multiAsker", "Ask", "src_multi_ask")
+	methodSource("s/multiswarm", "multiSwarm", "Tell", "src_multi_tell")
 
 	// C08: the guards in front of every index / slice of the fragmenting receivers
 	methodSource("s/fragswarm", "aggregator", "addPart", "src_frag_addpart")
@@ -94,6 +96,8 @@ func collect() {
 	methodSource("p/kademlia", "", "LeadingZeros", "src_kad_leadingzeros")
 	methodSource(".", "PeerID", "UnmarshalText", "src_peerid_unmarshal")
 	methodSource(".", "PeerID", "MarshalText", "src_peerid_marshal")
+	methodSource("s/p2pkeswarm", "Swarm", "getFullAddr", "src_kes_getfulladdr")
+	methodSource("s/p2pkeswarm", "Swarm", "handleMessage", "src_kes_handlemessage")
 	methodSource("s/quicswarm", "", "ParseAddr", "src_quic_parseaddr")
 	methodSource("s/p2pkeswarm", "", "ParseAddr", "src_ke_parseaddr")
 	methodSource("s/sshswarm", "", "ParseAddr", "src_ssh_parseaddr")
